@@ -468,6 +468,17 @@ func runC04(p *core.Program, r *core.Report) {
 			rv := ret.Results[0]
 			if rv == self {
 				c.ob("PT3", fname, "subtree kept", p.InstrPos(ret), true, "")
+				// keeping n is right only after the deletion went on below it: the error
+				// handed up is the one a recursive delete (into a child of n) reported
+				okRec := false
+				for _, o := range path.Origins(ret.Results[1]) {
+					if ex, ok := o.(*ssa.Extract); ok && ex.Index == 1 {
+						if call, ok := ex.Tuple.(*ssa.Call); ok && path.StaticCallee(call) == fn && (call.Block() == b || call.Block().Dominates(b)) {
+							okRec = true
+						}
+					}
+				}
+				c.ob("PT3", fname, "n kept only after deleting below it", p.InstrPos(ret), okRec, "delete returns n unchanged without having continued the deletion in one of its subtrees (and without reporting that subtree's verdict): the key is not removed and no error is reported")
 				continue
 			}
 			kept := childLoad(rv)
@@ -490,6 +501,128 @@ func runC04(p *core.Program, r *core.Report) {
 				"delete returns a replacement for n that drops the subtree(s)"+why+" without a dominating test that they are nil: keys other than the deleted one disappear")
 			if okKeep && !path.IsNil(ret.Results[1]) {
 				c.ob("PT3", fname, "successful unlink reports nil error", p.InstrPos(ret), false, "the unlinking return must report a nil error")
+			}
+		}
+		// the four shapes of the node that holds the key: which return each shape can reach.
+		// The tests on n.Left / n.Right are evaluated for each of the four combinations
+		// (nil / non-nil), every other branch is followed both ways.
+		{
+			isChildNilTest := func(v ssa.Value) (field string, eqNil bool, ok bool) {
+				bo, isB := v.(*ssa.BinOp)
+				if !isB || (bo.Op != token.EQL && bo.Op != token.NEQ) {
+					return "", false, false
+				}
+				var ld ssa.Value
+				switch {
+				case path.IsNil(bo.Y):
+					ld = bo.X
+				case path.IsNil(bo.X):
+					ld = bo.Y
+				default:
+					return "", false, false
+				}
+				f := childLoad(ld)
+				if f == "" {
+					return "", false, false
+				}
+				return f, bo.Op == token.EQL, true
+			}
+			for _, shape := range []struct {
+				lnil, rnil bool
+				want       string
+			}{{true, true, "nil"}, {false, true, "Left"}, {true, false, "Right"}, {false, false, "n"}} {
+				seen := map[*ssa.BasicBlock]bool{}
+				type edge struct{ p, b *ssa.BasicBlock }
+				seenE := map[edge]bool{}
+				// evalB: the truth of a boolean value under this shape, when it is made of
+				// nil tests of n.Left / n.Right (through !, and through the merged value of
+				// `a && b` / `a || b`, which depends on the edge the block was entered by)
+				var evalB func(v ssa.Value, pred *ssa.BasicBlock) (val, known bool)
+				evalB = func(v ssa.Value, pred *ssa.BasicBlock) (bool, bool) {
+					if u, ok := v.(*ssa.UnOp); ok && u.Op == token.NOT {
+						val, known := evalB(u.X, pred)
+						return !val, known
+					}
+					if bc, ok := path.BoolConst(v); ok {
+						return bc, true
+					}
+					if f, eqNil, ok := isChildNilTest(v); ok {
+						isNil := shape.lnil
+						if f == "Right" {
+							isNil = shape.rnil
+						}
+						return isNil == eqNil, true
+					}
+					if ph, ok := v.(*ssa.Phi); ok && pred != nil {
+						for i, pp := range ph.Block().Preds {
+							if pp == pred {
+								// the operand was computed in (or before) the predecessor
+								return evalB(ph.Edges[i], nil)
+							}
+						}
+					}
+					return false, false
+				}
+				var reach func(pred, b *ssa.BasicBlock)
+				reach = func(pred, b *ssa.BasicBlock) {
+					if seenE[edge{pred, b}] {
+						return
+					}
+					seenE[edge{pred, b}] = true
+					seen[b] = true
+					succs := b.Succs
+					if iff := path.BlockIf(b); iff != nil && len(b.Succs) == 2 {
+						if val, known := evalB(iff.Cond, pred); known {
+							if val {
+								succs = b.Succs[:1]
+							} else {
+								succs = b.Succs[1:2]
+							}
+						}
+					}
+					for _, sc := range succs {
+						reach(b, sc)
+					}
+				}
+				reach(nil, fn.Blocks[0])
+				name := map[bool]string{true: "nil", false: "set"}
+				label := "Left " + name[shape.lnil] + ", Right " + name[shape.rnil]
+				n := 0
+				for _, b := range fn.Blocks {
+					ret, ok := b.Instrs[len(b.Instrs)-1].(*ssa.Return)
+					if !ok || len(ret.Results) != 2 || !seen[b] {
+						continue
+					}
+					// only the returns of the node that holds the key
+					if cmpOutcome(fn, b, paramByName(fn, "key"), self) != ordEQ {
+						continue
+					}
+					if hasFact(edgeFacts(x, fn, b), "n", "==", "zero") {
+						continue
+					}
+					n++
+					rv := ret.Results[0]
+					got := childLoad(rv)
+					switch {
+					case rv == self:
+						got = "n"
+					case path.IsNil(rv):
+						got = "nil"
+					}
+					// a child that is nil in this shape is nil
+					if (got == "Left" && shape.lnil) || (got == "Right" && shape.rnil) {
+						got = "nil"
+					}
+					c.ob("PT3", fname, "shape "+label+" returns "+shape.want, p.InstrPos(ret), got == shape.want,
+						fmt.Sprintf("for a node holding the key with %s delete can return %q; it must return %s (nil for a leaf, the only child, or n after the successor took its place)", label, got, shape.want))
+				}
+				c.ob("PT3", fname, "shape "+label+" handled", c.fpos(fn), n >= 1, "no return of the key-holding node is reachable for this shape")
+				// the successor is looked up only where there is a right subtree
+				if nmin != nil && shape.rnil {
+					for _, mc := range callsTo(fn, nmin) {
+						c.ob("PT3", fname, "successor only with a right subtree ("+label+")", p.InstrPos(mc), !seen[mc.Block()], "the successor lookup n.Right.min() is reachable for a node without a right subtree: nil dereference")
+					}
+				}
 			}
 		}
 		// recursion results are stored back into the field descended through, and the error is passed up
